@@ -158,7 +158,20 @@ func deqPositions(a *anchors, r *sx.Rep, e *sx.Env, name string, stored ssa.Valu
 		if bo, ok := x.(*ssa.BinOp); ok {
 			if bo.Op == token.SHL {
 				if c, isC := ssau.ConstInt(bo.X); isC && c == 1 {
-					shl = true
+					// the shift amount is the header field itself
+					y := bo.Y
+					for {
+						if cv, ok := y.(*ssa.Convert); ok {
+							y = cv.X
+							continue
+						}
+						break
+					}
+					if ld, ok := y.(*ssa.UnOp); ok && ld.Op == token.MUL {
+						if ad := sx.ResolveAddr(ld.X); len(ad.Path) == 1 && ad.Path[0] == fb {
+							shl = true
+						}
+					}
 				}
 			}
 			if bo.Op == token.QUO {
@@ -435,6 +448,20 @@ func plySplat(a *anchors, r *sx.Rep) {
 		}
 	}
 	writers := propEntries(a, wfn, "Writer")
+	// entries built by package-local helpers called from the export function
+	seenHelper := map[*ssa.Function]bool{}
+	ssau.AllInstrs(wfn, func(in ssa.Instruction) {
+		c, ok := in.(*ssa.Call)
+		if !ok {
+			return
+		}
+		callee := c.Call.StaticCallee()
+		if callee == nil || callee.Blocks == nil || callee.Pkg != a.ply || seenHelper[callee] || callee.Signature.Recv() != nil {
+			return
+		}
+		seenHelper[callee] = true
+		writers = append(writers, propEntries(a, callee, "Writer")...)
+	})
 	if len(writers) == 0 || len(readers) == 0 {
 		r.Undecide("LAY-2", wname, a.p.Pos(wfn.Pos()), fmt.Sprintf("property tables not recognised (%d writer entries, %d default-reader entries)", len(writers), len(readers)))
 		return
